@@ -1282,6 +1282,10 @@ var (
 	rtFactory = ethcmn.FromHex("0x6000600060006000346000355af150" + "6000600160006000f550" + "00")
 	// runtime that writes its execution environment into storage, one slot each: GASLIMIT, NUMBER, TIMESTAMP, COINBASE,
 	// DIFFICULTY, GASPRICE, ORIGIN, GAS, BLOCKHASH(NUMBER-1) — whatever the node feeds the VM becomes part of the state
+	// runtime of a "fund, then fail to deploy" factory: CALL(to = CALLDATALOAD(0), value = CALLVALUE/2), then
+	// CREATE2(value = the contract's whole balance, init code = REVERT(0,0), salt 0): called with its own CREATE2 child
+	// address it funds the address and then runs a value-carrying creation there whose constructor reverts
+	rtFactoryRv = ethcmn.FromHex("0x60006000600060003460011c6000355af150" + "6460006000fd600052" + "60006005601b47f550" + "00")
 	// runtime that calls itself once: the inner frame (CALLER == ADDRESS) sends 1 wei to the fresh address in calldata
 	// word 2 (creating that account), reads the balances of the accounts in words 0 and 1 (first touch of both) and
 	// reverts; the outer frame then pays the whole call value to the account in word 0. The revert has to undo an
@@ -1290,11 +1294,19 @@ var (
 		"5b" + "6000600060006000600160403" + "55af150" + "6000353150" + "6020353150" + "60006000fd")
 	// the same without GASLIMIT (slot 0 receives NUMBER instead)
 	rtEnvNoGasLimit = ethcmn.FromHex("0x43600055" + "43600155" + "42600255" + "41600355" + "44600455" + "3a600555" + "32600655" + "5a600755" + "6001430340600855" + "00")
-	rtEnv = ethcmn.FromHex("0x45600055" + "43600155" + "42600255" + "41600355" + "44600455" + "3a600555" + "32600655" + "5a600755" + "6001430340600855" + "00")
+	rtEnv           = ethcmn.FromHex("0x45600055" + "43600155" + "42600255" + "41600355" + "44600455" + "3a600555" + "32600655" + "5a600755" + "6001430340600855" + "00")
 )
 
 // RtFactory is exported for the checks that classify recipients by code.
 var RtFactory = rtFactory
+
+// RtFactoryRv is the factory whose value-carrying CREATE2 over a just-funded address reverts.
+var RtFactoryRv = rtFactoryRv
+
+// FactoryRvChild is the address at which rtFactoryRv attempts its creation.
+func FactoryRvChild(factory ethcmn.Address) ethcmn.Address {
+	return ethcrypto.CreateAddress2(factory, [32]byte{}, ethcrypto.Keccak256(ethcmn.FromHex("0x60006000fd")))
+}
 
 // RtNest is the self-calling contract whose inner frame creates an account, touches two others and reverts.
 var RtNest = rtNest
@@ -1349,7 +1361,7 @@ func (g *Gen) OLVM() txgen.Tx {
 		a.Fee.Gas = int64(rapid.SampledFrom([]int{21000, 21000, 50000, 20999}).Draw(g.T, "gas"))
 		tags = append(tags, "olvm-transfer")
 	case 2: // create
-		rt := rapid.SampledFrom([][]byte{rtStore, rtRevert, rtLoop, rtKill, rtLog, rtFactory, rtEnv, rtEnv, rtNest}).Draw(g.T, "rt")
+		rt := rapid.SampledFrom([][]byte{rtStore, rtRevert, rtLoop, rtKill, rtLog, rtFactory, rtEnv, rtEnv, rtNest, rtFactoryRv}).Draw(g.T, "rt")
 		if g.NoBlockGasObserver && bytes.Equal(rt, rtEnv) {
 			rt = rtEnvNoGasLimit
 		}
@@ -1359,6 +1371,9 @@ func (g *Gen) OLVM() txgen.Tx {
 		}
 		if bytes.Equal(rt, rtNest) {
 			factoryNote = ":nest"
+		}
+		if bytes.Equal(rt, rtFactoryRv) {
+			factoryNote = ":factoryrv"
 		}
 		a.Value = big.NewInt(int64(rapid.IntRange(0, 1000).Draw(g.T, "value")))
 		a.Fee.Gas = int64(rapid.SampledFrom([]int{300000, 100000, 60000, 53000}).Draw(g.T, "gas"))
@@ -1371,6 +1386,9 @@ func (g *Gen) OLVM() txgen.Tx {
 			c := w.Contract[rapid.IntRange(0, len(w.Contract)-1).Draw(g.T, "contract")]
 			if len(w.Factories) > 0 && g.Uniform(3, "call-factory") == 0 {
 				c = w.Factories[g.Uniform(len(w.Factories), "factory")]
+			}
+			if len(w.FactoriesRv) > 0 && g.Uniform(4, "call-factoryrv") == 0 {
+				c = w.FactoriesRv[g.Uniform(len(w.FactoriesRv), "factoryrv")]
 			}
 			nest := false
 			if len(w.Nests) > 0 && g.Uniform(3, "call-nest") == 0 {
@@ -1391,6 +1409,14 @@ func (g *Gen) OLVM() txgen.Tx {
 				}
 			}
 			a.Fee.Gas = int64(rapid.SampledFrom([]int{300000, 100000, 30000, 22000}).Draw(g.T, "gas"))
+			for _, f := range w.FactoriesRv {
+				if f == c && !nest {
+					a.Data = ethcmn.LeftPadBytes(FactoryRvChild(c).Bytes(), 32)
+					a.Value = big.NewInt(int64(rapid.SampledFrom([]int{6, 1000, 5000000, 1}).Draw(g.T, "frvalue")))
+					a.Fee.Gas = int64(rapid.SampledFrom([]int{300000, 300000, 100000}).Draw(g.T, "frgas"))
+					tags = append(tags, "olvm-call-factoryrv")
+				}
+			}
 			if nest {
 				// two existing accounts (EVM senders or native users) and an address nobody has used
 				pick := func(label string) []byte {
